@@ -203,8 +203,12 @@ SrvJudge(sv, buf, od, store, q, r) ==
           LET abortLike == Len(q) >= 1 /\ Cs(q) = 4
               good == IF abortLike THEN Len(r) <= 1 /\ \A i \in 1..Len(r) : IsFrame8(r[i])
                                    ELSE Len(r) = 1 /\ IsFrame8(r[1])
+              \* a server that answers the out-of-protocol frame with an abort has aborted the transfer
+              \* in progress (if any); otherwise the transfer goes on
+              aborted == Len(r) = 1 /\ IsAbort(r[1])
           IN [ok |-> good, why |-> "out-of-protocol request: not exactly one well-formed response",
-              sv |-> sv, buf |-> buf, store |-> store, wcb |-> <<>>, free |-> TRUE]
+              sv |-> IF aborted THEN SrvIdle ELSE sv, buf |-> IF aborted THEN <<>> ELSE buf,
+              store |-> store, wcb |-> <<>>, free |-> TRUE]
         ELSE IF \E o \in outs : OutMatches(o, r)
           THEN LET o == CHOOSE o \in outs : OutMatches(o, r) IN
                [ok |-> TRUE, why |-> "", sv |-> o.sv, buf |-> NewBuf(o, buf),
